@@ -22,7 +22,7 @@ INVARIANTS TypeOK WaitListSound WaitListComplete
  PrC06_Fifo PrC07_NotBefore
  PrC08_FailFast PrC08_VerdictSound PrC08_NoRunningAfterCompleted
  PrC10_AllTerminal PrC10_NoGhosts PrC10_SameSet PrC10_FinishedFaithful
- PrC11_AllTerminal PrC11_StoreMatches PrC11_RejectAfter PrC11_GracefulRunsOut PrC11_ForcedCancels PrC11_PersistWithinInterval
+ PrC11_AllTerminal PrC11_StoreMatches PrC11_RejectAfter PrC11_GracefulRunsOut PrC11_ForcedCancels PrC11_ForcedStops PrC11_PersistWithinInterval
  PrC12_KeepsUnfinished PrC12_NoSettingsNoRemoval PrC12_NewestFirstClosure PrC12_CountBound PrC12_PeriodBound PrC12_UndefinedPurged PrC12_ThreeViewsAgree
  PrC15_SchedulableIffAccepted PrC15_RunningIffExecuting PrC15_ListedFromReturn PrC15_NewestFirst PrC15_TimesOrdered PrC15_TaskOrder
  PrC16_SnapshotRuns PrC16_ReloadIsInert
